@@ -133,6 +133,44 @@ def worker(ctx):
     strat = mutants()
     found = {}
 
+    # coverage-guided part: some shards run an atheris (libFuzzer) campaign over the same mutant
+    # strategy (checks/c02_fuzz.py) instead of the plain Hypothesis search
+    if ctx.shard < ctx.params.get("fuzz_shards", 0):
+        import json
+        import subprocess
+        import tempfile
+
+        deps = os.path.join(harness.VERIF, ".deps", "atheris")
+        if not os.path.isdir(deps):
+            ctx.notes["fuzz"] = "atheris not installed under .deps (run setup): coverage-guided part skipped on this shard"
+        else:
+            work = os.environ.get("VERIF_WORK") or os.path.join(harness.VERIF, ".work")
+            d = tempfile.mkdtemp(prefix=f"fz{ctx.shard}_", dir=work)
+            outp = os.path.join(d, "out.jsonl")
+            secs = int(min(ctx.params["fuzz_s"], ctx.budget_s * 0.6))
+            r = subprocess.run([sys.executable, os.path.join(harness.VERIF, "checks", "c02_fuzz.py"), outp, str(secs),
+                                str(ctx.shard_seed("fuzz") % (2**31 - 1) + 1), os.path.join(d, "corpus")],
+                               stdout=subprocess.DEVNULL, stderr=subprocess.DEVNULL, timeout=secs * 3 + 120)
+            stats = {}
+            if os.path.exists(outp + ".stats"):
+                stats = json.load(open(outp + ".stats"))
+            ctx.evaluations += int(stats.get("execs", 0))
+            ctx.label("fuzz:execs", int(stats.get("execs", 0)))
+            ctx.label("status:rejected", int(stats.get("rejected", 0)))
+            ctx.notes[f"fuzz_shard{ctx.shard}"] = {"seconds": secs, "rc": r.returncode, **stats}
+            if os.path.exists(outp):
+                for line in open(outp):
+                    f = json.loads(line)
+                    st_, bucket, detail = evaluate(f["src"])  # confirm in this (uninstrumented) process
+                    if st_ == "violation":
+                        if bucket not in found or len(f["src"]) < len(found[bucket][0]):
+                            found[bucket] = (f["src"], detail)
+                        ctx.label("violation:" + bucket)
+                        ctx.nontrivial.add(harness.case_hash(f["src"]))
+            import shutil
+
+            shutil.rmtree(d, ignore_errors=True)
+
     def body(m):
         st_, bucket, detail = evaluate(m["src"])
         labs = ["status:" + st_] + ["mut:" + l.split(":")[0] for l in m["labels"]]
@@ -173,7 +211,7 @@ SPEC = harness.Spec(
                  "a plain Python error while executing the module body (before guppy sees the function) is outside the property"],
     shards={"quick": 16, "thorough": 16},
     budget_s={"quick": 90, "thorough": 1200},
-    params={"quick": {"n": 500}, "thorough": {"n": 12000}},
+    params={"quick": {"n": 400, "fuzz_shards": 4, "fuzz_s": 40}, "thorough": {"n": 12000, "fuzz_shards": 8, "fuzz_s": 600}},
     min_nontrivial=300,
 )
 
